@@ -671,6 +671,15 @@ pub fn run(cx: &mut Ctx) {
                 continue;
             }
         };
+        // the documented inverse of time_zone_to_string is DateTimeParser::parse_time_zone (its own entry into the POSIX parser)
+        match guard(|| jiff::fmt::temporal::DateTimeParser::new().parse_time_zone(&printed)) {
+            Ok(Ok(b)) => {
+                let p = probes_for(&Zone::Posix(model.clone()), hash64(ps.as_bytes()) ^ cx.seed, false);
+                cmp_handles(cx, "posix print->parse_time_zone", &format!("posix:{}", ps), &a, &b, &p, false, true);
+            }
+            Ok(Err(e)) => cx.violation("posix/printed-form-rejected-by-parse_time_zone", case, || format!("{:?} parses", printed), || e.to_string()),
+            Err(pn) => cx.violation(&format!("posix/parse_time_zone-panic@{}", pn.loc()), case, || "Ok".into(), || pn.what.clone()),
+        }
         match guard(|| TimeZone::posix(&printed)) {
             Ok(Ok(b)) => {
                 let p = probes_for(&Zone::Posix(model), hash64(ps.as_bytes()) ^ cx.seed, false);
